@@ -7,6 +7,10 @@ R16.1 ScannerConfig::generate_build_information: the catch-all mapping is pushed
 R16.2 totality of the catch-all: for each setting of auto_newline the pattern that is pushed, together with the
       unconditionally present built-in rules of that setting (the newline token when auto_newline is on), matches every
       single character.  Decided on the evaluated pattern constants with regex_syntax's default meaning of `.`.
+R16.4 reader side: the per-state flags (allow_unmatched, auto_newline_off, auto_ws_off) of the grammar reader's
+      scanner configurations are written only (a) on the configuration under construction while a `%scanner` block is
+      converted, or (b) by a global directive on `scanner_configurations[INITIAL_STATE]` - a global %allow_unmatched
+      must not open other scanner states.
 R16.3 gap handling: the token type TokenBuffer::add gives to unmatched gap text is the constant INVALID_TOKEN and
       Token::is_skip_token treats exactly that constant (besides the built-in skip tokens) as skipped - allowed gaps are
       ignored by the parser but kept.
@@ -192,6 +196,7 @@ def check(ctx):
                   "matched by any rule, becomes a silently skipped gap and the parse succeeds although allow_unmatched is "
                   "off" % ("on" if setting else "off", pats[0], extra, sorted(covered.chars)), where(b, ca.line))
 
+    r16_4(ctx, facts)
     # ---------------------------------------------------------------- R16.3
     add = facts.body("parol_runtime::lexer::token_buffer::TokenBuffer::add")
     inv = "parol_runtime::lexer::token::INVALID_TOKEN"
@@ -229,3 +234,38 @@ def _switch_has(body, value):
         if t[0] == "switch" and any(v == value for v, _ in t[2]):
             return True
     return False
+
+
+def r16_4(ctx, facts):
+    from ..dataflow import raw_place
+    PG_SC = "parol::parser::parol_grammar::ScannerConfig"
+    FLAGS = ("allow_unmatched", "auto_newline_off", "auto_ws_off")
+    n = 0
+    for b in facts.in_crate(PA):
+        if not b.module.startswith("parol::parser::parol_grammar"):
+            continue
+        for bi, si, p, rv, line, mac in b.assigns():
+            if not (isinstance(p[-1], list) and p[-1][0] == "f" and p[-1][3] == PG_SC and p[-1][2] in FLAGS):
+                continue
+            if "derive" in b.mac or (b.impl_trait or "").endswith("Default") or (b.impl_trait or "").endswith("Clone"):
+                continue
+            n += 1
+            rp = raw_place(b, p)
+            root = rp[0]
+            d = single_def(b, root)
+            how = "other"
+            if d and d[0] == "call" and d[3].names() & {"std::ops::IndexMut::index_mut"}:
+                idx = d[3].args[1]
+                recv = recv_fields(b, d[3])
+                if idx[0] == "k" and (idx[3] or "").endswith("INITIAL_STATE") and idx[2] == 0 and "scanner_configurations" in recv \
+                        and b.kind != "Closure":
+                    how = "initial-state"
+            elif b.kind != "Closure" and b.local_ty(root).startswith(PG_SC) and b.local_name(root):
+                how = "config-under-construction"
+            ctx.check(how != "other", "R16.4", "%s|writes-%s|%s" % (short(b.root_fn(facts).path), p[-1][2], how),
+                      "%s is set on %s" % (p[-1][2], how),
+                      "%s sets %s on a scanner configuration that is neither the one under construction nor "
+                      "scanner_configurations[INITIAL_STATE]: a directive would change the matching rules of other scanner "
+                      "states (e.g. a global %%allow_unmatched removing the error rule everywhere)"
+                      % (short(b.path), p[-1][2]), where(b, line))
+    ctx.require_floor("R16.4", "flag_writes", n, 6)
